@@ -6,6 +6,24 @@ ALL = ["C%02d" % i for i in range(1, 21)]
 
 # property -> (category, technique, engine, text, note, design_ref)
 CHECKS = {
+ "C02": ("model_checking",
+         "explicit-state exploration of delivery histories on the real Chain (snapshot DFS with fingerprint memoisation, invalid blocks as probes at every state) against a reference ledger",
+         "c02",
+         "Every parent-before-child delivery history of fork-tree universes (same coinbase spent on both forks, output created and spent on a fork that loses then wins, the same commitment on both forks, re-created commitments, reorgs in both directions) is executed on the real Chain; at every reached state every reference-invalid block (double spend across blocks and inside one block, never-created and fork-foreign inputs, duplicate of an unspent commitment) is delivered as a probe. After every event process_block's verdict must equal the reference ledger's, and get_unspent of every commitment of the universe (position and height), unspent_outputs_by_pmmr_index and validate_inputs must equal the replay of the winning chain; closing and reopening must reproduce the state. Exhaustive over the stated universes and orders.",
+         "Reference ledger written from the property text (src/ledger.rs); orphan orders are C03, compaction is C08; universes up to 18 blocks.",
+         "DESIGN.md §4 C02"),
+ "C03": ("model_checking",
+         "stateless exploration (replay DFS with memoisation) of every delivery order over every small fork tree x difficulty vector on the real Chain, fork-choice model as oracle",
+         "c03",
+         "All fork trees up to 3 (quick) / 4 (thorough) blocks up to isomorphism with every difficulty vector from the alphabet (SKIP_POW universes as in the repo's fork tests) and real-PoW fork universes; every order of process_block / process_block_header / duplicate / sync_block_headers events including children before parents. After every event: head is an accepted block with accepted ancestors, moved only to strictly more work, has the greatest work among accepted blocks and equals the reference fork choice, reported Next/Fork/Reorg status and fork point equal the model's, verdict and accepted set equal the orphan model's; at quiescence with a unique maximum the best-chain state equals a twin fed the winning path only and is identical over all orders.",
+         "Orphan pool within capacity; trees <= 4 blocks; difficulty alphabets {1,3} / {1,2,4}.",
+         "DESIGN.md §4 C03"),
+ "C06": ("model_checking",
+         "snapshot exploration of delivery histories with a closed failure-stage catalogue delivered as probes at every reached state; before/after fingerprint and twin differential oracles",
+         "c06",
+         "At every state of every delivery history of a two-fork universe with spends and reorgs in both directions, every applicable corrupted block of a closed catalogue (PoW, header rules, kernel signature, range proof, kernel offset, coinbase flags, wrong roots / MMR sizes after the working state was modified, double spend, unknown input, immature coinbase; header-first and header-batch delivery) and every valid losing-fork block is delivered: the best-chain fingerprint must be unchanged, nothing but an itself-valid header (and the fork block) may be remembered, and the valid sibling must then be processed exactly as by a twin that never saw the bad input.",
+         "One corruption per failure stage (src/corrupt.rs); universe of 12 valid blocks.",
+         "DESIGN.md §4 C06"),
  "C07": ("exploration",
          "bounded-exhaustive enumeration of sizes/positions/leaves/corruptions on the real pmmr code vs an explicitly built reference forest",
          "c07",
